@@ -2,8 +2,18 @@
 C03 — the validator calls read from the source text are the guards the model functions implement.
 -/
 import CBV.Lemmas.C03Calc
+import CBV.Gen.TC03
 
 namespace CBV.C03
+
+/-- per relation: its validator calls in source order and the number of explicit `raise` statements,
+    as read from the source text at every run -/
+def guardTable : Option (List (Rel × List Guard × Nat)) :=
+  CBV.Gen.c03Guards.mapM fun ((o, a, b), gs, raises) => do
+    let rel : Rel := ⟨← Q.ofString? o, ← Q.ofString? a, ← Q.ofString? b⟩
+    let gs ← gs.mapM Guard.ofStrings?
+    some (rel, gs, raises)
+
 
 /-- what a validator call demands of the values a relation is applied to -/
 def Guard.holds (g : Guard) (L : ℚ) (v : Vals) : Prop :=
